@@ -73,10 +73,11 @@ func (f *Filter) Execute(data interface{}) (interface{}, error) {
 	case reflect.Map:
 		newMap := reflect.MakeMap(rtype)
 
-		// TODO (mkeeler) - Update to use a MapRange iterator once Go 1.12 is usable
-		// for all of our products
-		for _, mapKey := range rvalue.MapKeys() {
-			item := rvalue.MapIndex(mapKey)
+		// a key that is not equal to itself (NaN) cannot be looked up again with
+		// MapIndex: take key and element from the iterator
+		iter := rvalue.MapRange()
+		for iter.Next() {
+			mapKey, item := iter.Key(), iter.Value()
 
 			if !item.CanInterface() {
 				return nil, fmt.Errorf("Map value cannot be used")
